@@ -30,7 +30,7 @@ package stream
 
 //@ func (*Stream).finalizeSendDigest
 //@   props C04 C12
-//@   requires wf: digestsWF(s)
+//@   requires wf: [typeinv] digestsWF(s)
 //@   assigns s.finalSendDigest
 //@   ensures frozen: old(s.finalSendDigest) != nil ==> s.finalSendDigest == old(s.finalSendDigest)
 //@   ensures set: s.finalSendDigest != nil && len(s.finalSendDigest) == 32
@@ -39,7 +39,7 @@ package stream
 
 //@ func (*Stream).finalizeRecvDigest
 //@   props C04 C12
-//@   requires wf: digestsWF(s)
+//@   requires wf: [typeinv] digestsWF(s)
 //@   assigns s.finalRecvDigest
 //@   ensures frozen: old(s.finalRecvDigest) != nil ==> s.finalRecvDigest == old(s.finalRecvDigest)
 //@   ensures set: s.finalRecvDigest != nil && len(s.finalRecvDigest) == 32
@@ -49,7 +49,7 @@ package stream
 //@ func (*Stream).encryptDataWithAAD
 //@   props C12 C01 C04
 //@   frameprops C17
-//@   requires wf: digestsWF(s)
+//@   requires wf: [typeinv] digestsWF(s)
 //@   requires hdr5: len(frameHeader) == 5
 //@   requires data_bound: len(data) <= 1048576
 //@   assigns s.finishedSendAAD, s.finalSendDigest, s.finalRecvDigest, s.encryptCounter, sealCount, sealNonce, sealAAD, sealPT, sealObj, sealOut
@@ -78,7 +78,7 @@ package stream
 //@ func (*Stream).decryptDataWithAAD
 //@   props C02 C12 C04
 //@   frameprops C17
-//@   requires wf: digestsWF(s)
+//@   requires wf: [typeinv] digestsWF(s)
 //@   requires hdr5: len(frameHeader) == 5
 //@   assigns s.finishedRecvAAD, s.finalSendDigest, s.finalRecvDigest, s.decryptCounter, s.decryptIV, openCount, openNonce, openAAD, openCT, openObj, openPT, openOKCount
 //@   let opening = old(sealingOn(s))
@@ -119,7 +119,7 @@ package stream
 //@   props C01 C12 C04
 //@   frameprops C17
 //@   ensures duplex: [C17] old(s.finalSendDigest) != nil && old(s.finalRecvDigest) != nil ==> s.finalSendDigest == old(s.finalSendDigest) && s.finalRecvDigest == old(s.finalRecvDigest)
-//@   requires wf: digestsWF(s) && buffersSeparate(s)
+//@   requires wf: [typeinv] digestsWF(s) && buffersSeparate(s)
 //@   requires noalias: ref(data) != ref(s.frameBuf) || ref(data) == 0
 //@   assigns s.frameBuf, elems(s.frameBuf), s.sendDigestWritten, hashWrites, wrCount, wrLast, ctxClock, afCtx, afCount, s.finishedSendAAD, s.finalSendDigest, s.finalRecvDigest, s.encryptCounter, sealCount, sealNonce, sealAAD, sealPT, sealObj, sealOut
 //@   let sealing = old(sealingOn(s))
@@ -153,7 +153,7 @@ package stream
 //@   props C02 C01 C04 C13
 //@   frameprops C17
 //@   ensures duplex: [C17] old(s.finalSendDigest) != nil && old(s.finalRecvDigest) != nil ==> s.finalSendDigest == old(s.finalSendDigest) && s.finalRecvDigest == old(s.finalRecvDigest)
-//@   requires wf: digestsWF(s)
+//@   requires wf: [typeinv] digestsWF(s)
 //@   assigns s.finishedRecvAAD, s.finalSendDigest, s.finalRecvDigest, s.decryptCounter, s.decryptIV, s.recvDigestWritten, openCount, openNonce, openAAD, openCT, openObj, openPT, openOKCount, hashWrites, rdCount, rdTotal, rdLast, rdFail, ctxClock, afCtx, afCount
 //@   let opening = old(sealingOn(s))
 //@   let ctr0 = old(s.decryptCounter)
@@ -179,7 +179,7 @@ package stream
 //@   props C02 C01 C04 C13
 //@   frameprops C17
 //@   ensures duplex: [C17] old(s.finalSendDigest) != nil && old(s.finalRecvDigest) != nil ==> s.finalSendDigest == old(s.finalSendDigest) && s.finalRecvDigest == old(s.finalRecvDigest)
-//@   requires wf: digestsWF(s)
+//@   requires wf: [typeinv] digestsWF(s)
 //@   assigns s.finishedRecvAAD, s.finalSendDigest, s.finalRecvDigest, s.decryptCounter, s.decryptIV, s.recvDigestWritten, openCount, openNonce, openAAD, openCT, openObj, openPT, openOKCount, hashWrites, rdCount, rdTotal, rdLast, rdFail, ctxClock, afCtx, afCount
 //@   let opening = old(sealingOn(s))
 //@   let ctr0 = old(s.decryptCounter)
@@ -203,7 +203,7 @@ package stream
 //@   props C01 C12 C04 C09
 //@   frameprops C17
 //@   ensures duplex: [C17] old(s.finalSendDigest) != nil && old(s.finalRecvDigest) != nil ==> s.finalSendDigest == old(s.finalSendDigest) && s.finalRecvDigest == old(s.finalRecvDigest)
-//@   requires wf: digestsWF(s) && buffersSeparate(s)
+//@   requires wf: [typeinv] digestsWF(s) && buffersSeparate(s)
 //@   requires noalias: ref(data) != ref(s.frameBuf) || ref(data) == 0
 //@   assigns s.frameBuf, elems(s.frameBuf), s.sendDigestWritten, hashWrites, wrCount, wrLast, ctxClock, afCtx, afCount, s.finishedSendAAD, s.finalSendDigest, s.finalRecvDigest, s.encryptCounter, sealCount, sealNonce, sealAAD, sealPT, sealObj, sealOut
 //@   let sealing = old(sealingOn(s))
@@ -223,7 +223,7 @@ package stream
 //@   props C02 C01 C13
 //@   frameprops C17
 //@   ensures duplex: [C17] old(s.finalSendDigest) != nil && old(s.finalRecvDigest) != nil ==> s.finalSendDigest == old(s.finalSendDigest) && s.finalRecvDigest == old(s.finalRecvDigest)
-//@   requires wf: digestsWF(s)
+//@   requires wf: [typeinv] digestsWF(s)
 //@   assigns s.finishedRecvAAD, s.finalSendDigest, s.finalRecvDigest, s.decryptCounter, s.decryptIV, s.recvDigestWritten, openCount, openNonce, openAAD, openCT, openObj, openPT, openOKCount, hashWrites, rdCount, rdTotal, rdLast, rdFail, ctxClock, afCtx, afCount
 //@   ensures auth_gate: [C02] err == nil && old(sealingOn(s)) ==> openOKCount == old(openOKCount) + 1 && openObj == s.gcm && str(result) == openPT
 //@   ensures eom_is_authenticated_flag: [C02] err == nil && old(sealingOn(s)) ==> isEOM == (openAAD[len(openAAD) - 5] != 0)
@@ -238,7 +238,7 @@ package stream
 //@   props C01 C02 C13
 //@   frameprops C17
 //@   ensures duplex: [C17] old(s.finalSendDigest) != nil && old(s.finalRecvDigest) != nil ==> s.finalSendDigest == old(s.finalSendDigest) && s.finalRecvDigest == old(s.finalRecvDigest)
-//@   requires wf: digestsWF(s)
+//@   requires wf: [typeinv] digestsWF(s)
 //@   assigns s.receiveBuffer, elems(s.receiveBuffer), s.totalMsgBytes, s.finishedRecvAAD, s.finalSendDigest, s.finalRecvDigest, s.decryptCounter, s.decryptIV, s.recvDigestWritten, openCount, openNonce, openAAD, openCT, openObj, openPT, openOKCount, hashWrites, rdCount, rdTotal, rdLast, rdFail, ctxClock, afCtx, afCount
 //@   loop 1 invariant duplex: [C17] old(s.finalSendDigest) != nil && old(s.finalRecvDigest) != nil ==> s.finalSendDigest == old(s.finalSendDigest) && s.finalRecvDigest == old(s.finalRecvDigest)
 //@   loop 1 invariant wf: digestsWF(s) && len(s.receiveBuffer) >= old(len(s.receiveBuffer)) && openOKCount >= old(openOKCount)
@@ -251,7 +251,7 @@ package stream
 //@   props C01 C02 C13
 //@   frameprops C17
 //@   ensures duplex: [C17] old(s.finalSendDigest) != nil && old(s.finalRecvDigest) != nil ==> s.finalSendDigest == old(s.finalSendDigest) && s.finalRecvDigest == old(s.finalRecvDigest)
-//@   requires wf: digestsWF(s)
+//@   requires wf: [typeinv] digestsWF(s)
 //@   assigns s.finishedRecvAAD, s.finalSendDigest, s.finalRecvDigest, s.decryptCounter, s.decryptIV, s.recvDigestWritten, openCount, openNonce, openAAD, openCT, openObj, openPT, openOKCount, hashWrites, rdCount, rdTotal, rdLast, rdFail, ctxClock, afCtx, afCount
 //@   loop 1 invariant duplex: [C17] old(s.finalSendDigest) != nil && old(s.finalRecvDigest) != nil ==> s.finalSendDigest == old(s.finalSendDigest) && s.finalRecvDigest == old(s.finalRecvDigest)
 //@   loop 1 invariant wf: digestsWF(s) && openOKCount >= old(openOKCount) && rdTotal >= old(rdTotal) + len(completeMessage)
@@ -265,7 +265,7 @@ package stream
 //@   props C01
 //@   frameprops C17
 //@   ensures duplex: [C17] old(s.finalSendDigest) != nil && old(s.finalRecvDigest) != nil ==> s.finalSendDigest == old(s.finalSendDigest) && s.finalRecvDigest == old(s.finalRecvDigest)
-//@   requires wf: digestsWF(s) && buffersSeparate(s)
+//@   requires wf: [typeinv] digestsWF(s) && buffersSeparate(s)
 //@   assigns s.sendBuffer, s.frameBuf, elems(s.frameBuf), s.sendDigestWritten, hashWrites, wrCount, wrLast, ctxClock, afCtx, afCount, s.finishedSendAAD, s.finalSendDigest, s.finalRecvDigest, s.encryptCounter, sealCount, sealNonce, sealAAD, sealPT, sealObj, sealOut
 //@   ensures empty_noop: old(len(s.sendBuffer)) == 0 ==> err == nil && wrCount == old(wrCount)
 //@   ensures flushed: err == nil && old(len(s.sendBuffer)) > 0 ==> wrCount == old(wrCount) + 1 && wrLast[0] == 0 && len(s.sendBuffer) == 0 && s.sendBuffer == nil
@@ -276,7 +276,7 @@ package stream
 //@   props C01
 //@   frameprops C17
 //@   ensures duplex: [C17] old(s.finalSendDigest) != nil && old(s.finalRecvDigest) != nil ==> s.finalSendDigest == old(s.finalSendDigest) && s.finalRecvDigest == old(s.finalRecvDigest)
-//@   requires wf: digestsWF(s) && buffersSeparate(s)
+//@   requires wf: [typeinv] digestsWF(s) && buffersSeparate(s)
 //@   assigns s.sendBuffer, elems(s.sendBuffer), s.frameBuf, elems(s.frameBuf), s.sendDigestWritten, hashWrites, wrCount, wrLast, ctxClock, afCtx, afCount, s.finishedSendAAD, s.finalSendDigest, s.finalRecvDigest, s.encryptCounter, sealCount, sealNonce, sealAAD, sealPT, sealObj, sealOut
 //@   ensures after_eom: old(s.sendEOM) ==> err != nil && wrCount == old(wrCount) && s.sendBuffer == old(s.sendBuffer)
 //@   ensures buffered: err == nil && old(len(s.sendBuffer)) + len(data) < 4096 ==> wrCount == old(wrCount) && len(s.sendBuffer) == old(len(s.sendBuffer)) + len(data)
@@ -287,7 +287,7 @@ package stream
 //@   props C01
 //@   frameprops C17
 //@   ensures duplex: [C17] old(s.finalSendDigest) != nil && old(s.finalRecvDigest) != nil ==> s.finalSendDigest == old(s.finalSendDigest) && s.finalRecvDigest == old(s.finalRecvDigest)
-//@   requires wf: digestsWF(s) && buffersSeparate(s)
+//@   requires wf: [typeinv] digestsWF(s) && buffersSeparate(s)
 //@   assigns s.sendEOM, s.sendBuffer, s.frameBuf, elems(s.frameBuf), s.sendDigestWritten, hashWrites, wrCount, wrLast, ctxClock, afCtx, afCount, s.finishedSendAAD, s.finalSendDigest, s.finalRecvDigest, s.encryptCounter, sealCount, sealNonce, sealAAD, sealPT, sealObj, sealOut
 //@   ensures twice: old(s.sendEOM) ==> err != nil && wrCount == old(wrCount)
 //@   ensures final_frame: err == nil ==> wrCount == old(wrCount) + 1 && wrLast[0] == 1 && s.sendEOM && s.sendBuffer == nil
@@ -303,7 +303,7 @@ package stream
 //@   props C01 C02 C13
 //@   frameprops C17
 //@   ensures duplex: [C17] old(s.finalSendDigest) != nil && old(s.finalRecvDigest) != nil ==> s.finalSendDigest == old(s.finalSendDigest) && s.finalRecvDigest == old(s.finalRecvDigest)
-//@   requires wf: streamInv(s)
+//@   requires wf: [typeinv] streamInv(s)
 //@   assigns s.inMessage, s.bytesRead, s.receiveBuffer, elems(s.receiveBuffer), s.totalMsgBytes, s.finishedRecvAAD, s.finalSendDigest, s.finalRecvDigest, s.decryptCounter, s.decryptIV, s.recvDigestWritten, openCount, openNonce, openAAD, openCT, openObj, openPT, openOKCount, hashWrites, rdCount, rdTotal, rdLast, rdFail, ctxClock, afCtx, afCount
 //@   ensures busy: old(s.inMessage) ==> err != nil && rdCount == old(rdCount)
 //@   ensures started: err == nil ==> s.inMessage && s.bytesRead == 0 && s.totalMsgBytes == len(s.receiveBuffer)
@@ -314,7 +314,7 @@ package stream
 //@   props C01 C02 C13
 //@   frameprops C17
 //@   ensures duplex: [C17] old(s.finalSendDigest) != nil && old(s.finalRecvDigest) != nil ==> s.finalSendDigest == old(s.finalSendDigest) && s.finalRecvDigest == old(s.finalRecvDigest)
-//@   requires wf: streamInv(s)
+//@   requires wf: [typeinv] streamInv(s)
 //@   requires noalias: ref(data) != ref(s.receiveBuffer) || ref(data) == 0
 //@   assigns data, s.bytesRead, s.receiveBuffer, elems(s.receiveBuffer), s.totalMsgBytes, s.finishedRecvAAD, s.finalSendDigest, s.finalRecvDigest, s.decryptCounter, s.decryptIV, s.recvDigestWritten, openCount, openNonce, openAAD, openCT, openObj, openPT, openOKCount, hashWrites, rdCount, rdTotal, rdLast, rdFail, ctxClock, afCtx, afCount
 //@   ensures idle: !old(s.inMessage) ==> err != nil && n == 0
@@ -423,14 +423,14 @@ package stream
 
 //@ func (*Stream).FinalizeDigests
 //@   props C04 C12
-//@   requires wf: digestsWF(s)
+//@   requires wf: [typeinv] digestsWF(s)
 //@   assigns s.finalSendDigest, s.finalRecvDigest
 //@   ensures frozen: s.finalSendDigest != nil && s.finalRecvDigest != nil && digestsWF(s)
 //@   ensures once: (old(s.finalSendDigest) != nil ==> s.finalSendDigest == old(s.finalSendDigest)) && (old(s.finalRecvDigest) != nil ==> s.finalRecvDigest == old(s.finalRecvDigest))
 
 //@ func (*Stream).SetSymmetricKey
 //@   props C12 C04 C06
-//@   requires wf: digestsWF(s)
+//@   requires wf: [typeinv] digestsWF(s)
 //@   assigns s.gcm, s.encryptKey, s.encryptIV, s.encryptCounter, s.decryptCounter, s.finishedSendAAD, s.finishedRecvAAD, s.finalSendDigest, s.finalRecvDigest, s.encrypted, randCount
 //@   ensures bad_key: len(key) != 32 ==> err != nil && s.gcm == old(s.gcm) && s.encrypted == old(s.encrypted) && randCount == old(randCount)
 //@   ensures keyed: [C12 C06] err == nil ==> s.gcm != nil && s.encrypted && len(s.encryptKey) == 32 && fresh(s.encryptKey) && forall i :: 0 <= i && i < 32 ==> s.encryptKey[i] == old(key[i])
